@@ -402,6 +402,10 @@ def _check_connective_subscription(check, an: Analysis):
         check.instance('S', 'Connective[%s]:waits-while-subscribed' % qn.rsplit('.', 1)[-1],
                        waits_ok, where_fn(callee.fn),
                        'the bare hibernate happens inside the subscriptions')
+    check_subscription_paired(check, an, 'S')
+
+
+def check_subscription_paired(check, an: Analysis, rule: str):
     # the subscription context itself: subscribe / unsubscribe with the same pair
     sub = an.callee(NOTIFICATION, '__subscription__')
     verdict, n = True, 0
@@ -418,7 +422,7 @@ def _check_connective_subscription(check, an: Analysis):
             same = len(unsubs) == 1 and [ast.unparse(a) for a in unsubs[0].node.args] == \
                 [ast.unparse(a) for a in subs[0].node.args]
             verdict &= same
-    check.instance('S', 'Notification.__subscription__:paired', verdict and n > 0,
+    check.instance(rule, 'Notification.__subscription__:paired', verdict and n > 0,
                    where_fn(sub.fn), 'subscribe(task, wake_up) is undone by '
                    'unsubscribe(task, wake_up) on each of %d paths' % n, analysed=n)
 
